@@ -528,6 +528,15 @@ inline void TotalOrderSort(py::list& list) {  // NOLINT[runtime/references]
 
 inline Py_ALWAYS_INLINE py::list DictKeys(const py::dict& dict) {
     const scoped_critical_section cs{dict};
+    if (!PyDict_CheckExact(dict.ptr())) [[unlikely]] {
+        // `OrderedDict` maintains its own key order (e.g., after `move_to_end()`), which is not
+        // the order of the underlying dict that `PyDict_Keys()` reports. Iterate the object instead.
+        PyObject* const keys = PySequence_List(dict.ptr());
+        if (keys == nullptr) [[unlikely]] {
+            throw py::error_already_set();
+        }
+        return py::reinterpret_steal<py::list>(keys);
+    }
     return py::reinterpret_steal<py::list>(PyDict_Keys(dict.ptr()));
 }
 
